@@ -52,6 +52,8 @@ MUTANTS = [
   "      if (i < drop_size)\n        report_corruption(lr, drop_size, \"zero header followed by data\");\n", ""),
  ("repair_forgets_last_sequence", "C19", "src/repair.c",
   "  ldb_edit_set_last_sequence(&rep->edit, max_sequence);", "  ldb_edit_set_last_sequence(&rep->edit, 0);"),
+ ("repair_logs_unsorted", "C19", "src/repair.c",
+  "  ldb_array_sort(&rep->logs, compare_ascending);\n\n  for (i = 0; i < rep->logs.length; i++) {\n    uint64_t log = rep->logs.items[i];", "  for (i = 0; i < rep->logs.length; i++) {\n    uint64_t log = rep->logs.items[i];\n    (void)compare_ascending;"),
  ("manifest_next_file_stale", "C17", "src/version_set.c",
   "  ldb_edit_set_next_file(edit, vset->next_file_number);\n  ldb_edit_set_last_sequence(edit, vset->last_sequence);\n\n  v = ldb_version_create(vset);",
   "  ldb_edit_set_next_file(edit, vset->next_file_number > 3 ? vset->next_file_number - 2 : vset->next_file_number);\n  ldb_edit_set_last_sequence(edit, vset->last_sequence);\n\n  v = ldb_version_create(vset);"),
